@@ -137,6 +137,34 @@ func callD(f func()) (panicked bool, isPrecision bool, msg string) {
 
 var c07Precisions = []int{-8, -7, -6, -5, -4, -3, -2, -1, 0, 1, 2, 3, 4, 5, 6, 7, 8}
 
+// c07UnscaleScope: the scale-out step of every D entry point on integers beyond 2^53 (not representable in
+// float64, so int -> float -> divide rounds twice): ScalePath64ToPathD(v, 10^-p) must be the correctly rounded
+// value of v / 10^p for p >= 0 (the implementation multiplies decimals exactly and rounds once); for p < 0 the
+// factor 1/10^p is itself a rounded float, so one ulp is allowed there.
+func c07UnscaleScope() *drv.Scope {
+	vals := []int64{1<<53 + 1, 9007199254741025, 1<<53 + 3, 1<<54 + 2, 1<<56 + 77, 1<<60 + 12345, 1000000000000000007, 4611686018427387903, -(1<<53 + 1), -9007199254741025, -(1<<60 + 12345), 123456789, 25, 1<<53 - 1}
+	ps := []int{-3, -1, 0, 1, 2, 3, 4, 5, 6, 7, 8}
+	nV, nP := uint64(len(vals)), uint64(len(ps))
+	return &drv.Scope{Name: "unscale/ScalePath64ToPathD on integers beyond 2^53 x 11 precisions", Level: 1, Size: nV * nV * nP,
+		Show: func(idx uint64) any {
+			return map[string]any{"point": Pt{X: vals[idx%nV], Y: vals[idx/nV%nV]}, "precision": ps[idx/(nV*nV)]}
+		},
+		Run: func(c *drv.Ctx, idx uint64) {
+			pt, p := Pt{X: vals[idx%nV], Y: vals[idx/nV%nV]}, ps[idx/(nV*nV)]
+			got := clipper.ScalePath64ToPathD(Path{pt}, 1/math.Pow(10, float64(p)))
+			c.Exec(1)
+			wx, wy := unscaleRef(pt.X, p), unscaleRef(pt.Y, p)
+			ok := got[0].X == wx && got[0].Y == wy
+			if p < 0 {
+				ok = within1ulp(got[0].X, wx) && within1ulp(got[0].Y, wy)
+			}
+			if !ok {
+				c.Fail("unscale", fmt.Sprintf("precision=%d", p), "ScalePath64ToPathD(%v, 10^-%d)=%v, the exact quotient rounded once is (%v,%v)", pt, p, got[0], wx, wy)
+			}
+			c.Nontriv()
+		}}
+}
+
 func c07Scope(tier string) *drv.Scope {
 	nS := enum.PathCount(3, 3)
 	// coprime to 9, so the selected clip triangles are not pinned to lattice point 0
@@ -463,7 +491,7 @@ func init() {
 		Assumptions:      []string{"finite float alphabet (no denormals, no values whose product with 10^p is within 0.1 of a rounding tie in the main scope)", "64-bit counterparts are trusted here: their own meaning is decided by the other checks"},
 		RequiredCounters: []string{"cases_with_nonempty_boolean_result", "out_of_range_precisions_tried"},
 		Scopes: func(tier string) []*drv.Scope {
-			return []*drv.Scope{c07RangeScope(), c07HelperScope(), c07Scope(tier)}
+			return []*drv.Scope{c07RangeScope(), c07HelperScope(), c07UnscaleScope(), c07Scope(tier)}
 		},
 	})
 }
